@@ -45,9 +45,10 @@ FullStyle(plus, n, k) ==
   [c \in (IF plus THEN AllStyleCols ELSE V4Cols) \ (IF k = 1 THEN {} ELSE {"Alignment", "Bold", "BackColour", "Fontsize"}) |->
      CASE c = "Name" -> n
        [] c \in {"Fontname"} -> 1 + (n % 2)
-       [] c \in {"PrimaryColour", "SecondaryColour", "OutlineColour", "BackColour"} -> 1 + ((n + k) % 3)
-       [] c \in {"Bold", "Underline"} -> 1 [] c \in {"Italic", "Strikeout"} -> 0
-       [] c \in {"Fontsize", "ScaleX", "ScaleY", "Spacing", "Angle", "Outline", "Shadow", "AlphaLevel"} -> 1 + ((n + k) % 3)
+       \* neighbouring columns of the same type carry different values (a swapped field shows)
+       [] c \in {"PrimaryColour", "OutlineColour"} -> 1 + ((n + k) % 3) [] c \in {"SecondaryColour", "BackColour"} -> 1 + ((n + k + 1) % 3)
+       [] c \in {"Bold", "Strikeout"} -> 1 [] c \in {"Italic", "Underline"} -> 0
+       [] c \in {"Fontsize", "ScaleY", "Angle", "Shadow"} -> 1 + ((n + k) % 3) [] c \in {"ScaleX", "Spacing", "Outline", "AlphaLevel"} -> 1 + ((n + k + 1) % 3)
        [] OTHER -> n + k]
 FullEvent(plus, s, st, tx) ==
   Ev(s, s + 250, [c \in {LayerCol(plus), "Style", "Name", "MarginL", "MarginR", "MarginV", "Effect"} |->
@@ -58,12 +59,19 @@ TruthsF == {[plus |-> plus, info |-> inf, notes |-> nt,
               plus \in BOOLEAN, k2 \in {1, 2}, nt \in {<<>>, <<1, 2>>},
               inf \in {EmptyF, [c \in {"Title", "PlayResX", "Timer", "Collisions"} |-> 1], [c \in {"Title"} |-> 2]}}
 
-Truths(fam) == CASE fam = "S" -> TruthsS [] fam = "E" -> TruthsE [] fam = "F" -> TruthsF
+\* I: every script-info field alone (two values) and all of them together
+InfoKeys == {"Title", "PlayResX", "PlayResY", "PlayDepth", "Timer", "Collisions", "WrapStyle", "Original Script", "Original Translation",
+             "Original Editing", "Original Timing", "Synch Point", "Script Updated By", "Update Details"}
+TruthsI == {[Base(plus) EXCEPT !.info = inf, !.events = <<Ev(100, 350, [c \in {"Style"} |-> 0], <<<<R(1, 0)>>>>)>>] :
+              plus \in BOOLEAN, inf \in {[c \in {key} |-> v] : key \in InfoKeys, v \in {1, 2}} \cup {[c \in InfoKeys |-> 1], [c \in InfoKeys |-> 2]}}
+
+Truths(fam) == CASE fam = "S" -> TruthsS [] fam = "E" -> TruthsE [] fam = "F" -> TruthsF [] fam = "I" -> TruthsI
 BaseV == [eols |-> {"lf"}, boms |-> {FALSE}, radix |-> {"dec"}, nls |-> {"N"}, stars |-> {FALSE}, noise |-> FALSE]
 WideV(v) == IF Wide THEN [v EXCEPT !.eols = {"lf", "crlf", "cr"}, !.boms = BOOLEAN, !.radix = {"dec", "hex"}] ELSE v
 VarsN(fam) == CASE fam = "S" -> [BaseV EXCEPT !.radix = {"dec", "hex"}]
                [] fam = "E" -> [BaseV EXCEPT !.nls = {"N", "n", "mix"}, !.stars = BOOLEAN]
                [] fam = "F" -> [BaseV EXCEPT !.eols = {"lf", "crlf", "cr"}, !.boms = BOOLEAN, !.radix = {"dec", "hex"}, !.noise = TRUE]
+               [] fam = "I" -> [BaseV EXCEPT !.noise = TRUE]
 Vars(fam) == WideV(VarsN(fam))
 SP(fam, G) == IF G.styles = <<>> THEN {<<>>} ELSE IF fam = "S" THEN Perms(StyleCols(G)) ELSE IF fam = "E" THEN {SetToSeq(StyleCols(G))} ELSE ThreeOrders(StyleCols(G))
 EP(fam, G) == IF fam = "E" THEN Perms(EventCols(G)) ELSE IF fam = "S" THEN {SetToSeq(EventCols(G))} ELSE ThreeOrders(EventCols(G))
